@@ -5,6 +5,7 @@ CONSTANTS
   NSlots = 2
   MaxVal = 2
   DropOnAbort = FALSE
+  LookupFirst = FALSE
   AlwaysWrite = TRUE
 INVARIANTS Coherent OneCopy
 CHECK_DEADLOCK FALSE
